@@ -300,14 +300,17 @@ def _need_strict_increase(loop_ev, nid, inner):
 
 
 def _need_field_step(field):
+    """a field of the loop-carried value grows by one on every iteration and is one of the quantities the loop guard tests
+    (fields of crate-private structs are named by position, so the field is identified by what happens to it)"""
     def f(loop_ev, nid, inner):
+        exits = [x for x in inner if x['kind'] in ('ret', 'break')]
         for a in inner:
-            if a['kind'] == 'assign' and tuple(a['fields']) == (field,) and _every_iteration(loop_ev, a):
-                H = ('f', ('havoc', a['local'], nid), field)
-                if T.as_lin(T.sub(a['value'], T.root(H))) == T.as_lin(T.const(1)):
+            if a['kind'] == 'assign' and len(a['fields']) == 1 and a['fields'][0] != '[]' and _every_iteration(loop_ev, a):
+                H = ('f', ('havoc', a['local'], nid), a['fields'][0])
+                if T.as_lin(T.sub(a['value'], T.root(H))) == T.as_lin(T.const(1)) and any(T.mentions(c, H) for x in exits for c in x['pc']):
                     return True
         return False
-    return (f'{field} grows by one on every iteration', f)
+    return (f'{field} (a field the guard tests) grows by one on every iteration', f)
 
 
 def _need_assign_from(field_pos, callee):
@@ -354,6 +357,20 @@ LOOP_VETTED = {
 }
 
 
+def _relocated_loop(crate, b, loop_ev, nid, inner):
+    """the loop of a vetted function that no longer exists, found again in an impl of the same trait method for a crate-private
+    type (the type was renamed / hoisted): every ingredient of the vetted argument is present"""
+    meth = b.raw.get('assoc_name')
+    if not meth or not b.raw.get('impl_trait'):
+        return None
+    for path, (why, needs) in LOOP_VETTED.items():
+        if crate.body(path) is not None or not path.endswith('::' + meth) or ' as ' + b.raw['impl_trait'] not in path:
+            continue
+        if all(f(loop_ev, nid, inner) for _, f in needs):
+            return path
+    return None
+
+
 def check_term(rep, crate, cfgname, known_loop_findings=()):
     n_loops = 0
     n_consumers = 0
@@ -396,6 +413,10 @@ def check_term(rep, crate, cfgname, known_loop_findings=()):
                 elif b.path in LOOP_VETTED and not [d for d, f in LOOP_VETTED[b.path][1] if not f(e, nid, inner)]:
                     rep.ok('TERM', key, where, f'[{cfgname}] {src} loop terminates by a vetted argument: {LOOP_VETTED[b.path][0]}; its ingredients are present: '
                            + '; '.join(d for d, _ in LOOP_VETTED[b.path][1]), fn=b.path)
+                elif b.path not in LOOP_VETTED and _relocated_loop(crate, b, e, nid, inner) is not None:
+                    old_path = _relocated_loop(crate, b, e, nid, inner)
+                    rep.ok('TERM', key, where, f'[{cfgname}] {src} loop is the vetted loop of {old_path[:90]} (that function no longer exists: its type was '
+                           f'renamed or moved; same trait method, all ingredients of the argument present): {LOOP_VETTED[old_path][0]}', fn=b.path)
                 elif b.path in LOOP_VETTED:
                     missing = [d for d, f in LOOP_VETTED[b.path][1] if not f(e, nid, inner)]
                     rep.bad('TERM', key, where, f'[{cfgname}] {src} loop no longer has what its vetted termination argument rests on: ' + '; '.join(missing),
